@@ -224,6 +224,18 @@ for mode, label in (("NUMBER_FRACTION", "number"), ("MASS_FRACTION", "mass")):
                     m = b.call(b.getattr(m, "__rmul__"), f)
                     return dict(args=[m], kwargs=dict(quantity=False), env=dict(ps=ps, ms=[_mass(s, nat) for s in mix], keys=list(mix)))
                 c.scenario("+".join(mix) + "[times-a-common-factor]" + ("" if nat else "[most-abundant-isotopes]"), pre_c)
+        # the component table was looked at and one reported mass shown in grams (Quantity.to converts the returned object in place),
+        # then a further substance was added: the fractions are those of the amounts, as if nothing had been looked at
+        for mix in [m for m in MIXES if len(m) >= 2][:2]:
+            def pre_look(b, mix=mix):
+                ps = [b.real(f"p{i}") for i in range(len(mix))]
+                norm = b.getattr(b.cls(NORM), mode)
+                m = b.new(MAT, b.dict({s: p for s, p in list(zip(mix, ps))[:-1]}), norm_type=norm)
+                t = b.call(b.getattr(m, "data_components"))
+                b.call(b.getattr(b.getattr(b.call(b.getattr(t, "__getitem__"), mix[0]), "mass"), "to"), "g")
+                b.call(b.getattr(m, "add"), mix[-1], ps[-1])
+                return dict(args=[m], kwargs=dict(quantity=False), env=dict(ps=ps, ms=[_mass(s, True) for s in mix], keys=list(mix)))
+            c.scenario("+".join(mix) + "[a-reported-mass-shown-in-grams-then-a-substance-added]", pre_look)
         # the same mixtures written as an expression '<p> <substance> ...' (each blank is a '+' of materials): literal proportions
         for mix, lit in STRING_MIXES:
             for nat in (True, False):
@@ -435,6 +447,33 @@ def _(c):
     c.ensures("(lambda t: near(t['sum'].data()['rho'], self.mass_density.value('g/cm3')) and near(t['sum'].data()['rho'], sum([t[k].data()['rho'] for k in self.components.keys()])))(self.data_matter(quantity=False))", "component-mass-densities-add-up-to-rho")
     c.ensures("(lambda t: all([near(t[k].data()['n'], (c0.get(k, 0) + (p if k == key else 0)) * self.number_density.value('cm-3')) for k in names]))(self.data_matter(quantity=False))", "component-number-densities-are-amount-times-n-of-the-new-state")
     c.ensures("counts(twin) == c0 and near(twin.mass_density.value('g/cm3'), x if given == 'rho' else x * m0)", "another-object-built-from-the-same-formula-is-unaffected")
+    c.no_raise()
+
+
+# ---- a sum is a composite of its own: extending it by add() leaves both operands (their amounts, densities, mass and table) as they were ----
+@contract("materials/composite.py::Composite.add", ["C12", "C10"], name="Composite.add[on-a-sum-of-matter-with-density]")
+def _(c):
+    c.bound = "sums of two substances, either operand carrying a number density and a volume; the species added comes from the left or the right operand or is new"
+    c.chunk = 2
+    c.assume_nonzero_divisors = True
+    for ta, tb, key in [("CO2", "H2O", "H"), ("H2O", "NaCl", "Cl"), ("CO2", "H2O", "O"), ("NaCl", "H2O", "Na"), ("H2O", "NaCl", "C")]:
+        for dense in ("right", "left"):
+            def pre(b, ta=ta, tb=tb, key=key, dense=dense):
+                n, vol, p = b.real("n"), b.real("vol"), b.real("p")
+                kw = dict(number_density=b.new(QTY, n, "cm-3"), volume=b.new(QTY, vol, "cm3"))
+                A = b.new(SUB, ta, **(kw if dense == "left" else {}))
+                B = b.new(SUB, tb, **(kw if dense == "right" else {}))
+                S = b.call(b.getattr(A, "__add__"), B)
+                D, td = (A, ta) if dense == "left" else (B, tb)
+                cnt = sorted(M.expand_text(td).items())
+                return dict(args=[S, key, p], env=dict(n=n, vol=vol, p=p, A=A, B=B, D=D, ca=dict(M.expand_text(ta)), cb=dict(M.expand_text(tb)), mf=_mass(td) * DA_G, cnt=cnt,
+                                                       sm=[M.species(k)[0] * DA_G for k, _ in cnt]))
+            c.scenario(f"({ta} + {tb}).add({key}) density-on-the-{dense}", pre)
+    c.requires("n > 0 and vol > 0 and p > 0")
+    c.ensures("counts(A) == ca and counts(B) == cb", "operands-keep-their-amounts")
+    c.ensures("near(D.mass_density.value('g/cm3'), n * mf) and near(D.mass.value('g'), n * mf * vol)", "operand-density-is-still-n-times-its-formula-mass")
+    c.ensures("(lambda t: all([near(t[k].data()['n'], a * n) and near(t[k].data()['rho'], a * m * n) and near(t[k].data()['M'], a * m * n * vol) for (k, a), m in zip(cnt, sm)]) "
+              "and near(t['sum'].data()['rho'], n * mf) and near(t['sum'].data()['M'], n * mf * vol))(D.data_matter(quantity=False))", "operand-table-still-adds-up")
     c.no_raise()
 
 
